@@ -93,6 +93,36 @@ class Ctx:
         verdict is formed from the instances that could be read."""
         self.undecided.append({"clause": clause, "key": "%s|%s" % (clause, key), "detail": detail, "where": where, "function": fn})
 
+    def include(self, other_prop, run_fn, clause, keep=lambda c: True, what=""):
+        """Clauses of another property that this property rests on (e.g. C12 "the keys that var cannot find" rests on the
+        lookup clauses of C11): run them on the same facts and report their violations under `clause`."""
+        sub = Ctx(other_prop, self.tier, self.level)
+        sub._facts = self._facts
+        sub.fact_paths = self.fact_paths
+        sub.inline_set = self.inline_set
+        try:
+            run_fn(sub)
+        except Inconclusive as e:
+            self.unread(clause, "%s" % other_prop, "%s could not be read: %s" % (what or other_prop, e))
+            return
+        self.digest = self.digest or sub.digest
+        for c in sub.configs:
+            if c not in self.configs:
+                self.configs.append(c)
+        n = 0
+        for (cl, key, ok, detail) in sub.obls:
+            if keep(cl):
+                n += 1
+                if ok:
+                    self.obls.append((clause, "%s %s|%s" % (other_prop, cl, key), True, detail))
+        for v in sub.viol:
+            if keep(v["clause"]):
+                self.fail(clause, "%s %s" % (other_prop, v["key"]), "%s: %s" % (what or other_prop, v["detail"]), where=v["where"], fn=v.get("function"))
+        for u in sub.undecided:
+            if keep(u["clause"]):
+                self.undecided.append(u)
+        self.count("%s clauses included under %s" % (other_prop, clause), n)
+
     def need(self, cond, reason):
         """Fail closed: a missing anchor/role/count makes the run inconclusive."""
         if not cond:
